@@ -1,11 +1,132 @@
 package main
 
 import (
+	"encoding/json"
+	"flag"
 	"fmt"
+	"os"
+	"strconv"
+	"strings"
 
-	_ "golang.org/x/tools/go/packages"
-	_ "golang.org/x/tools/go/ssa"
-	_ "golang.org/x/tools/go/ssa/ssautil"
+	"kv/exec"
+	"kv/smt"
 )
 
-func main() { fmt.Println("kv") }
+func main() {
+	if len(os.Args) < 2 {
+		fmt.Fprintln(os.Stderr, "usage: kv check <ID> <quick|thorough> | kv run <pkg> <Harness> [args...] | kv replay <file> | kv list")
+		os.Exit(2)
+	}
+	if v := os.Getenv("VERIF_DIR"); v != "" {
+		verifDir = v
+	}
+	fs := flag.NewFlagSet("kv", flag.ExitOnError)
+	workers := fs.Int("j", defaultWorkers(), "workers")
+	solver := fs.String("solver", "z3", "z3 | z3-new | cvc5")
+	timeout := fs.Int("timeout", 60000, "per-query timeout ms")
+	trace := fs.Bool("trace", false, "record instruction trace")
+	unwind := fs.Int("unwind", 300, "loop bound (run)")
+	ctx := fs.Int("ctx", 0, "context bound (run)")
+	race := fs.Bool("race", false, "HB race check (run)")
+	maxPaths := fs.Int("maxpaths", 0, "path cap (run)")
+	switch os.Args[1] {
+	case "check":
+		fs.Parse(os.Args[4:])
+		opt := options{workers: *workers, solver: *solver, timeoutMs: *timeout, samplesPer: 2}
+		if os.Args[3] == "thorough" {
+			opt.samplesPer = 6
+			if *timeout == 60000 {
+				opt.timeoutMs = 300000
+			}
+		}
+		os.Exit(runCheck(os.Args[2], os.Args[3], opt))
+	case "list":
+		for id := range specs {
+			fmt.Println(id)
+		}
+	case "run":
+		var args []int64
+		rest := os.Args[4:]
+		for len(rest) > 0 && !strings.HasPrefix(rest[0], "-") {
+			v, err := strconv.ParseInt(rest[0], 0, 64)
+			if err != nil {
+				fmt.Fprintln(os.Stderr, err)
+				os.Exit(2)
+			}
+			args = append(args, v)
+			rest = rest[1:]
+		}
+		fs.Parse(rest)
+		l, err := load()
+		if err != nil {
+			fmt.Fprintln(os.Stderr, err)
+			os.Exit(2)
+		}
+		fmt.Printf("loaded in %.1fs\n", l.LoadS)
+		in := Inst{Pkg: os.Args[2], Fn: os.Args[3], Args: args, Unwind: *unwind, Ctx: *ctx, Race: *race, MaxPaths: *maxPaths}
+		opt := options{workers: *workers, solver: *solver, timeoutMs: *timeout, samplesPer: 3, trace: *trace}
+		res, st, err := explore(l, []Inst{in}, opt)
+		if err != nil {
+			fmt.Fprintln(os.Stderr, err)
+			os.Exit(2)
+		}
+		r := res[0]
+		fmt.Printf("paths=%d outcomes=%v covers=%v queries=%d solver=%.2fs instrs=%d\n", r.Paths, r.ByKind, r.Covers, st.Queries, st.SolverS, st.Instrs)
+		seen := map[string]int{}
+		for _, o := range r.Bad {
+			s := sig(in, o)
+			seen[s]++
+			if seen[s] > 1 {
+				continue
+			}
+			v, _ := nondetVec(o)
+			fmt.Printf("  %s %s @ %s nondet=%v obs=%v\n", o.Kind, o.Detail, o.Site, v, o.Obs)
+			if *trace {
+				n := len(o.Trace)
+				if n > 60 {
+					n = 60
+				}
+				for _, t := range o.Trace[len(o.Trace)-n:] {
+					fmt.Println("      ", t)
+				}
+			}
+		}
+		for s, n := range seen {
+			if n > 1 {
+				fmt.Printf("  (%d paths) %s\n", n, s)
+			}
+		}
+		for _, o := range r.Samples {
+			v, _ := nondetVec(o)
+			fmt.Printf("  sample ok nondet=%v obs=%v\n", v, o.Obs)
+		}
+	case "replay":
+		b, err := os.ReadFile(os.Args[2])
+		if err != nil {
+			fmt.Fprintln(os.Stderr, err)
+			os.Exit(2)
+		}
+		var rf replayFile
+		if err := json.Unmarshal(b, &rf); err != nil {
+			fmt.Fprintln(os.Stderr, err)
+			os.Exit(2)
+		}
+		res, err := runNative([]nativeCase{{ID: 0, Pkg: rf.Pkg, Harness: rf.Harness, Args: rf.Args, Nondet: rf.Nondet}})
+		if err != nil {
+			fmt.Fprintln(os.Stderr, err)
+			os.Exit(2)
+		}
+		for _, r := range res {
+			fmt.Printf("native outcome: %s %s obs=%v (engine: %s %s @ %s)\n", r.Outcome, r.Detail, r.Obs, rf.Kind, rf.Detail, rf.Site)
+			if r.Outcome != "ok" {
+				os.Exit(1)
+			}
+		}
+	default:
+		fmt.Fprintln(os.Stderr, "unknown command")
+		os.Exit(2)
+	}
+}
+
+var _ = exec.Config{}
+var _ = smt.Sat
